@@ -20,7 +20,7 @@ import (
 )
 
 func init() {
-	corelog.SetConfig(corelog.Config{Level: "fatal", Output: "stderr", Format: "text"})
+	corelog.SetConfig(corelog.Config{Level: "error", Output: "stderr", Format: "text"})
 }
 
 // Failure is what an oracle returns when a case violates the property.
